@@ -51,3 +51,103 @@ Proof.
   - intros out c j Hj Hl. body_red. rewrite !arr_get_nat by lia. cbn [bind].
     rewrite arr_set_nat by lia. reflexivity.
 Qed.
+
+(* ================= (b) src/buint/const_trait_fillers.rs ================= *)
+
+Lemma scan2_map2 (h : Z -> Z -> Z) a b :
+  fst (scan2 (fun x y (_ : unit) => (h x y, tt)) a b tt) = map2 h a b.
+Proof.
+  revert b. induction a as [|x a IH]; intros b; [reflexivity|].
+  destruct b as [|y b]; [reflexivity|]. cbn [scan2 map2 fst snd]. rewrite IH. reflexivity.
+Qed.
+
+Lemma loops_bitand w n a b : 0 < w -> wf w n a -> wf w n b ->
+  forall fuel, (n <= fuel)%nat -> Loops.bitand w (Z.of_nat n) fuel a b = Done (bitand a b).
+Proof.
+  intros Hw [Ha _] [Hb _] fuel Hf. subst n. unfold Loops.bitand. rewrite Nat2Z.id.
+  rewrite (loop_map2_all u_and a b); try first [assumption | apply repeat_length | reflexivity].
+  - cbn [bind]. rewrite scan2_map2. reflexivity.
+  - intros out j Hj Hl. body_red. rewrite !arr_get_nat by lia. cbn [bind].
+    rewrite arr_set_nat by lia. reflexivity.
+Qed.
+
+Lemma loops_bitor w n a b : 0 < w -> wf w n a -> wf w n b ->
+  forall fuel, (n <= fuel)%nat -> Loops.bitor w (Z.of_nat n) fuel a b = Done (bitor a b).
+Proof.
+  intros Hw [Ha _] [Hb _] fuel Hf. subst n. unfold Loops.bitor. rewrite Nat2Z.id.
+  rewrite (loop_map2_all u_or a b); try first [assumption | apply repeat_length | reflexivity].
+  - cbn [bind]. rewrite scan2_map2. reflexivity.
+  - intros out j Hj Hl. body_red. rewrite !arr_get_nat by lia. cbn [bind].
+    rewrite arr_set_nat by lia. reflexivity.
+Qed.
+
+Lemma loops_bitxor w n a b : 0 < w -> wf w n a -> wf w n b ->
+  forall fuel, (n <= fuel)%nat -> Loops.bitxor w (Z.of_nat n) fuel a b = Done (bitxor a b).
+Proof.
+  intros Hw [Ha _] [Hb _] fuel Hf. subst n. unfold Loops.bitxor. rewrite Nat2Z.id.
+  rewrite (loop_map2_all u_xor a b); try first [assumption | apply repeat_length | reflexivity].
+  - cbn [bind]. rewrite scan2_map2. reflexivity.
+  - intros out j Hj Hl. body_red. rewrite !arr_get_nat by lia. cbn [bind].
+    rewrite arr_set_nat by lia. reflexivity.
+Qed.
+
+Lemma loops_not w n a : 0 < w -> wf w n a ->
+  forall fuel, (n <= fuel)%nat -> Loops.not_ w (Z.of_nat n) fuel a = Done (bitnot w a).
+Proof.
+  intros Hw [Ha _] fuel Hf. subst n. unfold Loops.not_. rewrite Nat2Z.id.
+  rewrite (loop_map1_all (u_not w) a); try first [assumption | apply repeat_length | reflexivity].
+  intros out j Hj Hl. body_red. rewrite !arr_get_nat by lia. cbn [bind].
+  rewrite arr_set_nat by lia. reflexivity.
+Qed.
+
+Lemma loops_eq w n a b : 0 < w -> wf w n a -> wf w n b ->
+  forall fuel, (n <= fuel)%nat -> Loops.eq_ w (Z.of_nat n) fuel a b = Done (eq_digits a b).
+Proof.
+  intros Hw [Ha _] [Hb _] fuel Hf. unfold Loops.eq_.
+  apply while_count_bind with (n := n) (k := 0%nat)
+    (Inv := fun k i => i = Z.of_nat k /\ (k <= n)%nat /\ eq_digits a b = eq_digits (skipn k a) (skipn k b)).
+  - intros k i (-> & Hk & Heq) Hc. rewrite ltb_of_nat in Hc. apply Nat.ltb_lt in Hc. split; [exact Hc|].
+    rewrite !arr_get_nat by lia. cbn [bind].
+    rewrite Heq. rewrite (skipn_nth_cons a k) by lia. rewrite (skipn_nth_cons b k) by lia. cbn [eq_digits].
+    destruct (nth k a 0 =? nth k b 0); cbn [negb].
+    + split; [lia|]. split; [lia | reflexivity].
+    + reflexivity.
+  - intros k i (-> & Hk & Heq) Hc. rewrite ltb_of_nat in Hc. apply Nat.ltb_ge in Hc.
+    rewrite Heq. rewrite (skipn_all2 a) by lia. reflexivity.
+  - split; [reflexivity|]. split; [lia | reflexivity].
+  - lia.
+Qed.
+
+Lemma ucmp_snoc la lb x y : length la = length lb ->
+  ucmp (la ++ [x]) (lb ++ [y]) = if y <? x then Gt else if x <? y then Lt else ucmp la lb.
+Proof.
+  revert lb. induction la as [|p la IH]; intros lb Hl; destruct lb as [|q lb]; try discriminate.
+  - cbn [app ucmp]. destruct (y <? x); [reflexivity|]. destruct (x <? y); reflexivity.
+  - cbn [app ucmp]. rewrite IH by (cbn [length] in Hl; lia).
+    destruct (y <? x); [reflexivity|]. destruct (x <? y); reflexivity.
+Qed.
+
+Lemma loops_cmp w n a b : 0 < w -> wf w n a -> wf w n b ->
+  forall fuel, (n <= fuel)%nat -> Loops.cmp w (Z.of_nat n) fuel a b = Done (ucmp a b).
+Proof.
+  intros Hw [Ha _] [Hb _] fuel Hf. unfold Loops.cmp.
+  apply while_count_bind with (n := n) (k := 0%nat)
+    (Inv := fun k i => i = Z.of_nat (n - k) /\ (k <= n)%nat /\
+                       ucmp a b = ucmp (firstn (n - k) a) (firstn (n - k) b)).
+  - intros k i (-> & Hk & Heq) Hc. rewrite gtb_of_nat_0 in Hc. apply Nat.ltb_lt in Hc. split; [lia|].
+    change 1 with (Z.of_nat 1). rewrite usub_nat by lia. cbn [bind].
+    rewrite !arr_get_nat by lia. cbn [bind].
+    assert (E : forall l : list Z, (n - k - 1 < length l)%nat ->
+                firstn (n - k) l = firstn (n - k - 1) l ++ [nth (n - k - 1) l 0]).
+    { intros l Hl. replace (n - k)%nat with (S (n - k - 1)) at 1 by lia. apply firstn_S_snoc. exact Hl. }
+    rewrite Heq. rewrite (E a) by lia. rewrite (E b) by lia.
+    rewrite ucmp_snoc by (rewrite !firstn_length; lia).
+    rewrite Z.gtb_ltb.
+    destruct (nth (n - k - 1) b 0 <? nth (n - k - 1) a 0); [reflexivity|].
+    destruct (nth (n - k - 1) a 0 <? nth (n - k - 1) b 0); [reflexivity|].
+    split; [f_equal; lia|]. split; [lia|]. replace (n - S k)%nat with (n - k - 1)%nat by lia. reflexivity.
+  - intros k i (-> & Hk & Heq) Hc. rewrite gtb_of_nat_0 in Hc. apply Nat.ltb_ge in Hc.
+    rewrite Heq. replace (n - k)%nat with 0%nat by lia. reflexivity.
+  - split; [f_equal; lia|]. split; [lia|]. rewrite Nat.sub_0_r. rewrite !firstn_all2 by lia. reflexivity.
+  - lia.
+Qed.
